@@ -424,6 +424,7 @@ def run(check: core.Check) -> None:
         if not got:
             raise core.MachineryError(f"{cfg}: TLC emitted no cases")
         cases += got
+        res.stdout, res.printed = "", []      # the emitted lines are large: not kept while the replay workers are forked
     cov = core.require_ok(done["cov"], "Overloads coverage")
     kinds: dict[str, int] = {}
     for line in cov.printed:
@@ -437,6 +438,7 @@ def run(check: core.Check) -> None:
         r = done["sens:" + cfg]
         if r.violated != inv:
             raise core.MachineryError(f"sensitivity self-test failed: {cfg} does not violate {inv} ({r.error})")
+    del done
     check.cov["sensitivity"] = ("model with Bug=first_any_wins (an Any match returns the first overload, pyright's rule), "
                                 "with Bug=no_narrow (the union argument is not narrowed after a partial match) and with "
                                 "Bug=elif_chain (the three per-parameter tests of check_call_with_bound_args as one if/elif "
@@ -450,7 +452,7 @@ def run(check: core.Check) -> None:
         check.cov["fixcheck"] = ("model with the proposed repair satisfies PropertyHoldsStrict on the q_types2 slice"
                                  if fx.ok else f"model with the proposed repair still violates: {fx.violated}")
     # 2. S->C: replay through the real visitor, adjudicated by TLC
-    limit = 125000 if quick else 700000
+    limit = 125000 if quick else 500000
     uniq = {core.canon([c["sigs"], c["call"]]): c for c in cases}
     cases = list(uniq.values())
     check.cov["model_cases"] = len(cases)
